@@ -191,7 +191,7 @@ def run_streams(streams, workdir):
 
 def explain(stream, index, workdir):
   """Asks Coq what the model computes for one disagreeing case (for the replay file)."""
-  explain_fn = stream.checker.replace("check_case", "explain_case").replace("check_rt", "explain_rt")
+  explain_fn = stream.checker.replace("check_case", "explain_case").replace("check_rt", "explain_rt").replace("check_doc", "explain_doc")
   path = os.path.join(workdir, f"explain_{stream.name}_{index}.v")
   with open(path, "w") as f:
     f.write("From Fiddle Require Import PyBase.\n" + stream.requires + "\nOpen Scope Z_scope.\n")
